@@ -280,6 +280,8 @@ func VerifH04bResponse() {
 	hop := verifrt.Choose("hop", len(zzHopNames)+2)
 	announced := verifrt.Bool("announced-trailer")
 	unannounced := verifrt.Bool("unannounced-trailer")
+	// the announced trailer may carry the name of a field the response also has as a header
+	t1 := []string{"X-T1", "X-Shared"}[verifrt.Choose("trailer-name", 2)]
 	down := http.Header{}
 	rules := verifrt.Bool("rules")
 	if rules {
@@ -288,7 +290,7 @@ func VerifH04bResponse() {
 	}
 	var res *http.Response
 	be := &zzBackend{resp: func(req *http.Request) *http.Response {
-		h := http.Header{"X-B": []string{hv, "two"}, "X-Ddel": []string{"x"}, "Content-Type": []string{"text/x"}}
+		h := http.Header{"X-B": []string{hv, "two"}, "X-Ddel": []string{"x"}, "Content-Type": []string{"text/x"}, "X-Shared": []string{"hdr"}}
 		switch {
 		case hop < len(zzHopNames):
 			h[zzHopNames[hop]] = []string{"hopvalue"}
@@ -298,7 +300,7 @@ func VerifH04bResponse() {
 		}
 		res = &http.Response{StatusCode: st, Header: h, Trailer: http.Header{}}
 		if announced {
-			res.Trailer["X-T1"] = []string{"t1"}
+			res.Trailer[t1] = []string{"t1"}
 		}
 		cb := &zzChunked{data: body, first: verifrt.IntRange("firstchunk", 0, 2)}
 		if unannounced {
@@ -335,12 +337,17 @@ func VerifH04bResponse() {
 	// trailers reach the client: announced ones under their name (and listed in Trailer),
 	// unannounced ones with the TrailerPrefix
 	if announced && !unannounced {
-		verifrt.Assert(w.Header().Get("X-T1") == "t1", "announced-trailer-delivered")
+		tv := w.Header()[t1]
+		verifrt.Assert(len(tv) == 1 && tv[0] == "t1", "announced-trailer-delivered")
+	}
+	if !(announced && t1 == "X-Shared") {
+		sv := w.Header()["X-Shared"]
+		verifrt.Assert(len(sv) == 1 && sv[0] == "hdr", "end-to-end-header-intact")
 	}
 	if unannounced {
 		verifrt.Assert(w.Header().Get(http.TrailerPrefix+"X-T2") == "t2", "unannounced-trailer-delivered")
 		if announced {
-			verifrt.Assert(w.Header().Get(http.TrailerPrefix+"X-T1") == "t1" || w.Header().Get("X-T1") == "t1", "announced-trailer-delivered")
+			verifrt.Assert(w.Header().Get(http.TrailerPrefix+t1) == "t1" || w.Header().Get(t1) == "t1", "announced-trailer-delivered")
 		}
 	}
 	verifrt.Observe("resp", w.status, len(w.body))
